@@ -122,6 +122,8 @@ type State struct {
 	dead    bool
 	steps   int
 	infeasible bool
+	cutEarly bool
+	stackLocs [][2]string // (heap array, base ref) of objects in the activation record (ssa.Alloc with Heap == false): no callee can write them
 	havocEpoch int
 	havocExcept map[string]bool // heap arrays untouched by every whole-heap havoc so far
 	d *Decls
@@ -185,6 +187,7 @@ func (st *State) clone() *State {
 	n.calls = copyMap(st.calls)
 	n.typed = copyMap(st.typed)
 	n.fresh = append([]string(nil), st.fresh...)
+	n.stackLocs = append([][2]string(nil), st.stackLocs...)
 	n.notes = st.notes // shared
 	return &n
 }
